@@ -578,3 +578,147 @@ func isBool(t types.Type) bool {
 	b, ok := t.Underlying().(*types.Basic)
 	return ok && b.Kind() == types.Bool
 }
+
+// ---------- ORD6 ----------
+
+// Less / Equal of the primitive System types evaluated exhaustively over
+// boundary pools (exact domain; fixed-width integer folding).
+func ruleORD6(p *Program) *RuleResult {
+	r := newResult("ORD6")
+	st, err := systemTypes(p)
+	if err != nil {
+		return r.anchorFail(err)
+	}
+	strPool := []string{"", "a", "A", "ab", "b", "é", "z", "€", "á"}
+	boolOutcome := func(res *result, twoResults bool) string {
+		if len(res.hazards) > 0 {
+			return "hazard:" + res.hazards[0].what
+		}
+		if len(res.rets) != 1 {
+			return "?"
+		}
+		ri := res.rets[0]
+		if twoResults {
+			if ri.vals[1].k != kNil {
+				return "err"
+			}
+		}
+		v := ri.vals[0]
+		if v.k == kConst && v.c.Kind() == constant.Bool {
+			return fmt.Sprint(constant.BoolVal(v.c))
+		}
+		return "?"
+	}
+	// Integer
+	for _, m := range []struct {
+		name string
+		two  bool
+		want func(a, b int64) bool
+	}{
+		{"Less", true, func(a, b int64) bool { return a < b }},
+		{"Equal", false, func(a, b int64) bool { return a == b }},
+	} {
+		fn, err := p.Method("fhirpath/system", "Integer", m.name)
+		if err != nil {
+			return r.anchorFail(err)
+		}
+		bad := 0
+		for _, a := range intPool {
+			for _, b := range intPool {
+				r.count("cells", 1)
+				an := newAnalyzer()
+				res := an.analyze(fn, []aval{cInt(a), st.intItem(b)})
+				got, want := boolOutcome(res, m.two), fmt.Sprint(m.want(a, b))
+				if got != want {
+					bad++
+					if bad <= 4 {
+						r.bad(fmt.Sprintf("Integer.%s|%d,%d", m.name, a, b), fmt.Sprintf("Integer(%d).%s(%d) = %s, want %s", a, m.name, b, got, want), p.pos(fn.Pos()),
+							"Integer comparison disagrees with the mathematical order on a boundary pair")
+					}
+				}
+			}
+		}
+		if bad == 0 {
+			r.ok("Integer."+m.name+"|pool", fmt.Sprintf("Integer.%s agrees with the integer order on %d boundary pairs", m.name, len(intPool)*len(intPool)), p.pos(fn.Pos()), "exhaustive abstract evaluation with fixed-width folding", true)
+		}
+	}
+	// String
+	for _, m := range []struct {
+		name string
+		two  bool
+		want func(a, b string) bool
+	}{
+		{"Less", true, func(a, b string) bool { return a < b }},
+		{"Equal", false, func(a, b string) bool { return a == b }},
+	} {
+		fn, err := p.Method("fhirpath/system", "String", m.name)
+		if err != nil {
+			return r.anchorFail(err)
+		}
+		bad := 0
+		for _, a := range strPool {
+			for _, b := range strPool {
+				r.count("cells", 1)
+				res := newAnalyzer().analyze(fn, []aval{cStr(a), st.strItem(b)})
+				got, want := boolOutcome(res, m.two), fmt.Sprint(m.want(a, b))
+				if got != want {
+					bad++
+					if bad <= 4 {
+						r.bad(fmt.Sprintf("String.%s|%q,%q", m.name, a, b), fmt.Sprintf("String(%q).%s(%q) = %s, want %s", a, m.name, b, got, want), p.pos(fn.Pos()),
+							"String comparison disagrees with code-point order")
+					}
+				}
+			}
+		}
+		if bad == 0 {
+			r.ok("String."+m.name+"|pool", fmt.Sprintf("String.%s agrees with code-point order on %d pairs", m.name, len(strPool)*len(strPool)), p.pos(fn.Pos()), "exhaustive abstract evaluation", true)
+		}
+	}
+	// Boolean.Equal; mixed-type operands are never equal / never ordered
+	bfn, err := p.Method("fhirpath/system", "Boolean", "Equal")
+	if err != nil {
+		return r.anchorFail(err)
+	}
+	badB := 0
+	for _, a := range []bool{false, true} {
+		for _, b := range []bool{false, true} {
+			r.count("cells", 1)
+			res := newAnalyzer().analyze(bfn, []aval{cBool(a), st.boolItem(b)})
+			if boolOutcome(res, false) != fmt.Sprint(a == b) {
+				badB++
+			}
+		}
+	}
+	if badB == 0 {
+		r.ok("Boolean.Equal|pool", "Boolean.Equal agrees on the 4 pairs", p.pos(bfn.Pos()), "exhaustive abstract evaluation", true)
+	} else {
+		r.bad("Boolean.Equal|pool", "Boolean.Equal differs from == on a pair", p.pos(bfn.Pos()), "Boolean equality wrong")
+	}
+	for _, tc := range []struct {
+		typ, meth string
+		recv, arg aval
+		want      string
+	}{
+		{"Integer", "Equal", cInt(1), st.strItem("1"), "false"},
+		{"String", "Equal", cStr("1"), st.intItem(1), "false"},
+		{"Boolean", "Equal", cBool(true), st.intItem(1), "false"},
+		{"Integer", "Less", cInt(1), st.strItem("2"), "err"},
+		{"String", "Less", cStr("1"), st.intItem(2), "err"},
+	} {
+		fn, err := p.Method("fhirpath/system", tc.typ, tc.meth)
+		if err != nil {
+			return r.anchorFail(err)
+		}
+		r.count("cells", 1)
+		res := newAnalyzer().analyze(fn, []aval{tc.recv, tc.arg})
+		got := boolOutcome(res, tc.meth == "Less")
+		key := fmt.Sprintf("%s.%s|mixed", tc.typ, tc.meth)
+		if got == tc.want {
+			r.ok(key, fmt.Sprintf("%s.%s on an operand of another type → %s", tc.typ, tc.meth, got), p.pos(fn.Pos()), "SCCP (type assertion decided by the operand's dynamic type)", true)
+		} else {
+			r.bad(key, fmt.Sprintf("%s.%s on an operand of another type → %s, want %s", tc.typ, tc.meth, got, tc.want), p.pos(fn.Pos()), "values of different types compare as equal/ordered")
+		}
+	}
+	r.floor("cells", 500)
+	return r
+}
